@@ -1,5 +1,6 @@
 """C17 — embedded docstrings: right text, correctly escaped, nothing else changes."""
 import os
+import re
 import xml.etree.ElementTree as ET
 
 import gtwrap.interface_parser as parser
@@ -310,6 +311,84 @@ def c17_partial_xml(shape: int) -> bool:
     return ok
 
 
+# ---------------------------------------------------------------- a real Doxygen XML folder (index.xml + compound files)
+KINDS = ["class", "struct", "union", "interface"]
+TARGETS = ["ns::Params", "Params", "ns::Params<T>", "ns::inner::Params"]
+
+
+def _compound_file(cname, refid, kind, members):
+    root = ET.Element("doxygen")
+    cd = ET.SubElement(root, "compounddef", {"id": refid, "kind": kind})
+    ET.SubElement(cd, "compoundname").text = cname
+    sec = ET.SubElement(cd, "sectiondef", {"kind": "public-func"})
+    for md in members:
+        sec.append(md)
+    return ET.tostring(root, encoding="unicode")
+
+
+def write_xml_folder(root, kind, pos, target):
+    """index.xml lists a namespace, a file, decoy classes (one whose name extends the target's, one equal to its last
+    component) and the target compound of the given kind at position pos; every compound documents a method `set(key)`"""
+    decoys = [("ns::ParamsExtra", "class"), ("Other", "class"), ("ns::Para", "struct")]
+    comps = [("ns", "namespace", "namespacens"), ("Params_8h", "file", "Params_8h")]
+    entries = [(n, k, "%s%s" % (k, re.sub(r"[^A-Za-z0-9]", "_", n))) for n, k in decoys]
+    entries.insert(pos, (target, kind, "%s%s" % (kind, re.sub(r"[^A-Za-z0-9]", "_", target)) + "_t"))
+    comps += entries
+    idx = ET.Element("doxygenindex")
+    for n, k, refid in comps:
+        c = ET.SubElement(idx, "compound", {"refid": refid, "kind": k})
+        ET.SubElement(c, "name").text = n
+        if k not in ("namespace", "file"):
+            m = ET.SubElement(c, "member", {"refid": refid + "_1a", "kind": "function"})
+            ET.SubElement(m, "name").text = "set"
+    with open(os.path.join(root, "index.xml"), "w") as f:
+        f.write(ET.tostring(idx, encoding="unicode"))
+    for n, k, refid in comps:
+        members = [] if k in ("namespace", "file") else [mk_member("set", [("key", False)], "set of %s" % n, pdocs=True),
+                                                            mk_member("get", [], "get of %s" % n)]
+        with open(os.path.join(root, refid + ".xml"), "w") as f:
+            f.write(_compound_file(n, refid, k, members))
+
+
+def c17_xml_folder(kind: int, pos: int, target: int) -> bool:
+    """
+    Through the real files of a Doxygen XML folder: the documentation of `Class::set(key)` is found for a compound that
+    Doxygen lists as class, struct, union or interface, wherever it stands in index.xml, and is never taken from a
+    compound whose name merely extends or abbreviates the class name; a class that is not listed gives ''.
+    pre: 0 <= kind < 4 and 0 <= pos <= 3 and 0 <= target < len(TARGETS)
+    post: _
+    """
+    kind, pos, target = pick(kind, 0, 4), pick(pos, 0, 4), pick(target, 0, len(TARGETS))
+    with concrete():
+        import shutil
+        import tempfile
+        d = tempfile.mkdtemp(prefix="c17_")
+        try:
+            name = TARGETS[target]
+            write_xml_folder(d, KINDS[kind], pos, name)
+            problems = []
+            xp = XMLDocParser()
+            for cls, want in ((name, "set of %s\nkey: about key in set of %s" % (name, name)), ("ns::ParamsExtra", "set of ns::ParamsExtra\nkey: about key in set of ns::ParamsExtra"),
+                              ("ns::Missing", ""), ("ns::Param", "")):
+                try:
+                    got = xp.extract_docstring(d, cls, "set", ["key"])
+                except Exception as ex:
+                    got = "raised %r" % ex
+                if got != want:
+                    problems.append("%s::set(key): docstring %r, documented %r" % (cls, got, want))
+            try:
+                got = xp.extract_docstring(d, name, "get", [])
+            except Exception as ex:
+                got = "raised %r" % ex
+            if got != "get of %s" % name:
+                problems.append("%s::get(): docstring %r" % (name, got))
+        finally:
+            shutil.rmtree(d, ignore_errors=True)
+        ok = not problems or _fail(kind=KINDS[kind], position=pos, target=name, problems=problems)
+    reached({"kind": KINDS[kind], "pos": pos, "target": TARGETS[target]})
+    return ok
+
+
 def c17_nothing_else_changes(n: int, k: int, role: int) -> bool:
     """
     With XML supplied, the generated code minus the docstring literals equals the code generated without XML.
@@ -353,6 +432,8 @@ def conds(tier):
                 bounds="7 code-point classes x symbolic code point in the class x %d following characters (hex digits, quote, backslash, ?, other)" % len(FOLLOW)),
         xh.Cond(M, "c17_overloads", t(300, 1800), examples=["shape=0, q=0, sym='id'", "shape=4, q=1, sym='id'", "shape=9, q=0, sym='zz'", "shape=12, q=0, sym='a'", "shape=13, q=2, sym='a'", "shape=14, q=1, sym='b'"],
                 bounds="15 member-definition shapes (with per-parameter documentation) x 12 queries x symbolic parameter name (len <= 3)"),
+        xh.Cond(M, "c17_xml_folder", t(120, 600), kind="shape-bounded", examples=["kind=0, pos=0, target=0", "kind=1, pos=2, target=0", "kind=2, pos=3, target=2", "kind=3, pos=1, target=1"],
+                bounds="real XML folder: 4 compound kinds x 4 positions in index.xml x 4 class-name forms, with decoy compounds"),
         xh.Cond(M, "c17_partial_xml", t(120, 600), kind="shape-bounded", examples=["shape=1", "shape=5"], bounds="6 partial-XML shapes"),
         xh.Cond(M, "c17_nothing_else_changes", t(200, 900), kind="shape-bounded", examples=["n=2, k=1, role=0"], bounds="0-2 args x defaults x 3 roles"),
     ]
